@@ -980,3 +980,110 @@ Proof.
     destruct (live_children t q W Hq) as [lq0 Hlq0]. rewrite (kids_abs t q lq0 Hlq0) in Hcq.
     apply Hqn. eapply (WF_disjoint t q n lq0 ln c); eauto.
 Qed.
+
+(* ------------------------------------------------------------------ slot reuse *)
+
+(* what an operation does to the nodes map (the allocator), whatever the state *)
+Definition nodes_rel (m : slotmap bool) (o : op) (m' : slotmap bool) (out : ret) : Prop :=
+  match o with
+  | ONewLeaf | ONewWithChildren _ => m' = fst (sm_insert m false) /\ out = RKey (snd (sm_insert m false))
+  | ONewLeafCtx _ => m' = fst (sm_insert m true) /\ out = RKey (snd (sm_insert m true))
+  | ORemove n => m' = fst (sm_remove m n)
+  | OClear => m' = sm_clear m
+  | OSetCtx n c => exists b, sm_set m n b = Ok m'
+  | _ => m' = m
+  end.
+
+Ltac inv_bind H :=
+  repeat match type of H with
+         | bind ?e _ = Ok _ => let E := fresh "E" in destruct e eqn:E; cbn [bind] in H; [|discriminate H]
+         | (if ?c then _ else _) = Ok _ => let E := fresh "E" in destruct c eqn:E
+         | Panic = Ok _ => discriminate H
+         end.
+
+Lemma remove_child_at_nodes t p i x : remove_child_at_index t p i = Ok x -> t_nodes (fst x) = t_nodes t.
+Proof.
+  unfold remove_child_at_index. intros H. inv_bind H; inversion H; reflexivity.
+Qed.
+
+Lemma remove_child_nodes t p c x : remove_child t p c = Ok x -> t_nodes (fst x) = t_nodes t.
+Proof.
+  unfold remove_child. intros H. inv_bind H. eapply remove_child_at_nodes; eauto.
+Qed.
+
+Lemma set_children_loop_nodes p cs : forall u t2, set_children_loop u p cs = Ok t2 -> t_nodes t2 = t_nodes u.
+Proof.
+  induction cs as [|c r IH]; intros u t2 H; simpl in H; [inversion H; reflexivity|].
+  inv_bind H. apply IH in H. cbn [set_parents_map t_nodes] in H. rewrite H.
+  destruct a as [prev|].
+  - inv_bind E0. destruct (snd a) eqn:Es; inversion E0; subst; eapply remove_child_nodes; eauto.
+  - inversion E0. reflexivity.
+Qed.
+
+Lemma step_nodes t o t' out : step t o = Ok (t', out) -> nodes_rel (t_nodes t) o (t_nodes t') out.
+Proof.
+  destruct o; cbn [step nodes_rel]; intros H.
+  - unfold new_leaf in H. inversion H. auto.
+  - unfold new_leaf_with_context in H. inversion H. auto.
+  - unfold new_with_children in H. inv_bind H. inversion H. auto.
+  - unfold add_child in H. inv_bind H. inversion H. reflexivity.
+  - unfold insert_child_at_index in H. inv_bind H; inversion H; reflexivity.
+  - unfold set_children in H. inv_bind H. inversion H. cbn [set_children_map t_nodes].
+    apply set_children_loop_nodes in E1. exact E1.
+  - apply remove_child_nodes in H. exact H.
+  - apply remove_child_at_nodes in H. exact H.
+  - unfold remove_children_range in H. inv_bind H; inversion H; reflexivity.
+  - unfold replace_child_at_index in H. inv_bind H; inversion H; reflexivity.
+  - unfold remove in H. inv_bind H. inversion H. reflexivity.
+  - unfold clear in H. inversion H. reflexivity.
+  - unfold set_node_context in H. destruct c; inv_bind H; inversion H; eauto.
+Qed.
+
+(* a spent key stays spent (hence dead), and no creation returns it *)
+Definition is_creation (o : op) : bool :=
+  match o with ONewLeaf | ONewLeafCtx _ | ONewWithChildren _ => true | _ => false end.
+
+Theorem spent_step t o t' out k : step t o = Ok (t', out) -> no_wrap (t_nodes t) -> spent (t_nodes t) k ->
+  spent (t_nodes t') k /\ (is_creation o = true -> out <> RKey k).
+Proof.
+  intros H Hw Hs. apply step_nodes in H.
+  destruct o; cbn [nodes_rel is_creation] in *;
+    try (rewrite H; split; [exact Hs | discriminate]).
+  - destruct H as [-> ->]. destruct (spent_insert (t_nodes t) false k Hs) as [A B]. split; [exact A | congruence].
+  - destruct H as [-> ->]. destruct (spent_insert (t_nodes t) true k Hs) as [A B]. split; [exact A | congruence].
+  - destruct H as [-> ->]. destruct (spent_insert (t_nodes t) false k Hs) as [A B]. split; [exact A | congruence].
+  - rewrite H. split; [apply spent_remove; assumption | discriminate].
+  - rewrite H. split; [apply spent_clear; assumption | discriminate].
+  - destruct H as [b H]. split; [eapply spent_set; eauto | discriminate].
+Qed.
+
+Lemma spent_not_live t k : spent (t_nodes t) k -> ~ tlive t k /\ next_key t <> k.
+Proof.
+  intros Hs. split.
+  - unfold tlive. rewrite (spent_dead _ _ Hs). congruence.
+  - unfold next_key. apply (spent_insert (t_nodes t) false k Hs).
+Qed.
+
+Theorem remove_spends_key t n t' out : tlive t n -> no_wrap (t_nodes t) -> step t (ORemove n) = Ok (t', out) ->
+  spent (t_nodes t') n.
+Proof.
+  intros Hn Hw H. apply step_nodes in H. cbn [nodes_rel] in H. rewrite H.
+  unfold tlive in Hn. destruct (sm_get (t_nodes t) n) eqn:E; [|congruence]. eapply remove_spends; eauto.
+Qed.
+
+(* no version wraps along the run *)
+Fixpoint nowrap_hist (t : tree) (os : list op) : Prop :=
+  match os with
+  | [] => no_wrap (t_nodes t)
+  | o :: r => no_wrap (t_nodes t) /\ forall t' out, step t o = Ok (t', out) -> nowrap_hist t' r
+  end.
+
+Theorem spent_hist os : forall t acc t' outs k, spent (t_nodes t) k -> nowrap_hist t os ->
+  run_acc (Ok (t, acc)) os = Ok (t', outs) -> spent (t_nodes t') k.
+Proof.
+  induction os as [|o r IH]; intros t acc t' outs k Hs Hw Hr.
+  - inversion Hr. subst. exact Hs.
+  - rewrite run_acc_cons in Hr. destruct (step t o) as [[t1 out]|] eqn:E; [|discriminate].
+    destruct Hw as [Hw0 Hw1]. destruct (spent_step t o t1 out k E Hw0 Hs) as [Hs1 _].
+    eapply IH; eauto.
+Qed.
